@@ -332,15 +332,21 @@ const baseHeader = `(set-logic ALL)
 (set-option :produce-models true)
 `
 
-func (P *Program) prelude(body string, S *SortReg) string {
+func (P *Program) prelude(body string, S *SortReg) string { return P.preludeEx(body, S, nil) }
+
+func (P *Program) preludeEx(body string, S *SortReg, exclude []string) string {
 	var sb strings.Builder
 	included := map[*section]bool{}
+	excluded := map[string]bool{}
+	for _, e := range exclude {
+		excluded[e] = true
+	}
 	text := body
 	changed := true
 	for changed {
 		changed = false
 		for _, s := range P.sections {
-			if included[s] {
+			if included[s] || excluded[s.name] {
 				continue
 			}
 			need := s.always
@@ -576,10 +582,10 @@ func (P *Program) discharge(obls []*Obligation, secs int, thorough bool, par int
 			}
 			t0 := time.Now()
 			tl := secs
-			if o.Kind == "cover" && tl > 3 {
+			if o.MustFail && tl > 3 {
 				tl = 3 // a contradiction among assumptions shows up at once; "unknown" is the expected answer
 			}
-			o.Res = runSolvers(q, tl, thorough && o.Kind != "cover", nil)
+			o.Res = runSolvers(q, tl, thorough && !o.MustFail, nil)
 			if o.Res.Secs == 0 {
 				o.Res.Secs = time.Since(t0).Seconds()
 			}
